@@ -146,6 +146,44 @@ def check(run, prog, tier):
     rule_C(run, prog)
     rule_D(run, prog)
     rule_F(run, prog)
+    run.rule("C13-H", "'the frequency axis derived from a time axis maps back to the same time axis and vice versa': what an axis is "
+                      "told about its conjugate axis when it is created (type, start of the conjugate axis) is what it keeps, on "
+                      "every path through the constructor (qv/ctorparam.py, all-paths mode)", minimum=4)
+    rule_H(run, prog)
+
+
+def rule_H(run, prog):
+    """get_TimeAxis() / get_FrequencyAxis() hand the position of the axis they come from to the constructor of the conjugate
+    axis (frequency_start, time_start) together with the type; the way back reads them.  A constructor that keeps the
+    argument on some paths only (for one type of axis, when it is non-zero, ...) maps back to another axis."""
+    from .. import ctorparam
+    rid = "C13-H"
+    n = 0
+    wanted = {"atype", "frequency_start", "time_start"}
+    for q in ("quantarhei.core.time.TimeAxis", "quantarhei.core.frequency.FrequencyAxis"):
+        cls = prog.cls(q)
+        init = cls.methods.get("__init__")
+        if init is None:
+            raise AnalysisError("%s.__init__ vanished" % q)
+        prog.consulted.add(init.relpath)
+        res = {p_: (ok, node, why) for p_, ok, node, why in ctorparam.analyse(prog, cls, flags_only=False, all_paths=True)}
+        params = [a_.arg for a_ in init.node.args.args[1:] + init.node.args.kwonlyargs if a_.arg in wanted]
+        for p_ in params:
+            n += 1
+            if p_ not in res:
+                # not stored under its own name at all: handed to a setter / base constructor is fine, dropped is not
+                used = any(isinstance(x, ast.Name) and x.id == p_ for x in walk_no_nested(init.node))
+                run.obligation(rid, cls.name + ".__init__", used, key="kept:" + p_,
+                               message="%s(%s=...) does not use the argument: the conjugate axis derived later does not map back"
+                                       % (cls.name, p_), loc=init.loc(), sample={"parameter": p_})
+                continue
+            ok, node, why = res[p_]
+            run.obligation(rid, cls.name + ".__init__", ok, key="kept:" + p_,
+                           message="%s(%s=...) keeps the argument on some paths only (%s): an axis created from its conjugate axis "
+                                   "forgets where that axis lies, and mapping back gives a different axis"
+                                   % (cls.name, p_, why), loc=init.loc(node), sample={"parameter": p_})
+    if n < 4:
+        raise AnalysisError("C13-H: only %d conjugate-axis parameters found in the constructors of the axes" % n)
 
 
 def _ffts(f):
